@@ -77,18 +77,22 @@ pub struct Case {
     pub scripts: Vec<Script>,
     /// apply the script to the intermediate SAFE-OP step instead of the final one (PreOpToOp only)
     pub on_intermediate: bool,
+    /// frame size of the MainDevice: 44 holds two status checks per frame, 1100 all of them
+    pub frame: usize,
 }
 
 #[derive(Default)]
 struct Groups {
-    a: SubDeviceGroup<4, 32>,
-    b: SubDeviceGroup<4, 32>,
+    a: SubDeviceGroup<8, 32>,
+    b: SubDeviceGroup<8, 32>,
 }
 
 fn run_case(case: &Case, healthy_us: u64) -> (String, Vec<(String, String)>, u64) {
     let n = case.member.len();
     let devs: Vec<Device> = (0..n).map(|i| Device::new(simple_io(0x3000 + i as u32, &[8], &[8]).image())).collect();
-    let mut net = Net::new(Segment::new(devs));
+    let mut net = Net::with_size(Segment::new(devs), crate::net::timeouts(), ethercrab::RetryBehaviour::None, case.frame);
+    net.budget.virtual_us = 400_000;
+    net.budget.polls = 200_000;
     let md = net.md();
     let member = case.member.clone();
     let mut viol: Vec<(String, String)> = Vec::new();
@@ -137,7 +141,7 @@ fn run_case(case: &Case, healthy_us: u64) -> (String, Vec<(String, String)>, u64
             let can_all_get_there = members.iter().all(|i| case.scripts[*i].gets_there());
             if let Err(stop) = &$res {
                 viol.push((
-                    format!("transition-did-not-return {}", format!("{:?}", stop).chars().take(20).collect::<String>()),
+                    format!("transition-did-not-return {}", match stop { Stop::Deadlock => "deadlock", Stop::Budget(_) => "budget", Stop::Panic(_) => "panic" }),
                     format!("transition {:?} did not return: {:?}", trans, stop),
                 ));
             }
@@ -387,11 +391,27 @@ pub fn c10(tier: &Tier) -> Result<i32, String> {
                         scripts[*mi] = SCRIPTS[x % SCRIPTS.len()];
                         x /= SCRIPTS.len();
                     }
-                    cases.push(Case { member: member.clone(), trans: t, scripts: scripts.clone(), on_intermediate: false });
+                    cases.push(Case { member: member.clone(), trans: t, scripts: scripts.clone(), on_intermediate: false, frame: 1100 });
+                    // the same with frames that hold only two status checks: the group's status
+                    // poll then needs 2 (3 members) or 3 (5 members) frames
+                    if k >= 3 {
+                        cases.push(Case { member: member.clone(), trans: t, scripts: scripts.clone(), on_intermediate: false, frame: 44 });
+                    }
                     if t == Trans::PreOpToOp && scripts.iter().any(|s| *s != Script::Accept0) {
-                        cases.push(Case { member: member.clone(), trans: t, scripts, on_intermediate: true });
+                        cases.push(Case { member: member.clone(), trans: t, scripts, on_intermediate: true, frame: 1100 });
                     }
                 }
+            }
+        }
+    }
+    // five members, frames of two status checks: three status frames; one deviating member at
+    // every position with every script
+    for pos in 0..5usize {
+        for sc in SCRIPTS {
+            for t in [Trans::PreOpToSafeOp, Trans::SafeOpToOp, Trans::PreOpToInit] {
+                let mut scripts = vec![Script::Accept0; 5];
+                scripts[pos] = sc;
+                cases.push(Case { member: vec![true; 5], trans: t, scripts, on_intermediate: false, frame: 44 });
             }
         }
     }
